@@ -127,6 +127,7 @@ def run(ctx):
                 'prefix that opens a routine / loop / matrix block), ASCII noise, non-ASCII noise; non-trivial = the text has at least '
                 'three tokens and is either accepted or rejected at a line other than that of its first token; distinct = distinct text')
     ctx.assumptions += ['that Python code never raises is exhibited by these runs only (a Gallina function cannot raise)',
+                        'accepted scripts that contain `pause` (waits for a key press on the terminal) are compiled and checked but not run',
                         'texts with numbers of more than 15 significant digits, `not`, pause, breakpoint, nested braces and similar undocumented forms are outside the parser model (counted as unmodelled) and are checked against the implementation only']
     n_valid = 1500 if ctx.thorough() else 110
     texts = []
@@ -249,7 +250,10 @@ def run(ctx):
                 if w != 'T':
                     ctx.counterexample('C06/accepted-image-not-well-formed', 'the accepted text %r loads to an image that fails the control-flow check' % texts[i][1][:200], {'text': texts[i][1]})
     n_run = 0
+    from bardolph.vm.vm_codes import OpCode
     for i in acc:
+        if any(inst.op_code is OpCode.PAUSE for inst in obs[i]['program']):
+            continue    # `pause` waits for a key press on the controlling terminal: not run here
         world = gen_prog.World.generate(rng) or lang.SMALL_WORLD
         try:
             st, evs = lang.run_program_impl(obs[i]['program'], world, max_steps=3000)
